@@ -66,11 +66,16 @@ def corpus(tier):
     obs = {o["id"]: o for o in core.e1_run(recs, "custom-" + tier)}
     cp = e2.Corpus("custom-" + tier)
     info = {}
+    rejected = {}
     for pid, c, tags in progs:
         names = {}
         o = obs[pid + ":ct"]
-        if o.get("dirty") or o.get("panic"):
-            raise core.MachineryError("custom corpus program %s rejected by the macro (model says valid): %s" % (pid, o.get("panic")))
+        bad_o = next((x for x in [o] + [obs[pid + ":" + i.module] for i in c.interfaces] if x.get("dirty") or x.get("panic") or x.get("has_compile_error")), None)
+        if bad_o is not None:
+            rejected[pid] = [{"code": None, "message": "rejected by the macro (%s): %s" % (bad_o["id"], bad_o.get("panic") or (bad_o.get("compile_errors") or ["diagnostic emitted"])[0]),
+                              "lines": [], "rendered": ""}]
+            info[pid] = (c, tags, names)
+            continue
         for k, fns in e2.e1_names(o).items():
             names[("contract", k)] = fns
         for i in c.interfaces:
@@ -81,6 +86,7 @@ def corpus(tier):
         info[pid] = (c, tags, names)
     cp.write()
     cp.build()
+    cp.failed.update(rejected)
     _CACHE[tier] = (cp, info)
     return _CACHE[tier]
 
